@@ -12,6 +12,9 @@
 
 #include <array>
 #include <vector>
+#include <new>
+#include <cstdlib>
+#include <cstdint>
 
 namespace Fastor {
 
@@ -40,6 +43,38 @@ public:
         return DimensionHolder[dim];
     }
     FASTOR_INLINE Tensor<T,Rest...>& noalias() {return *this;}
+
+#if __cplusplus < 201703L
+    // Aligned allocation
+    //----------------------------------------------------------------------------------------------------------//
+    // Before C++17 the global operator new ignores alignas, so a tensor created with new / new[] would only be
+    // malloc-aligned although is_aligned() promises FASTOR_MEMORY_ALIGNMENT_VALUE and aligned vector accesses are
+    // issued on it. (Containers that allocate through std::allocator, e.g. std::vector, are not covered by this.)
+    static void* operator new(std::size_t n)   { return aligned_allocate_(n); }
+    static void* operator new[](std::size_t n) { return aligned_allocate_(n); }
+    static void operator delete(void* p)   noexcept { aligned_free_(p); }
+    static void operator delete[](void* p) noexcept { aligned_free_(p); }
+    // placement forms (hidden by the declarations above otherwise)
+    static void* operator new(std::size_t, void* p)   noexcept { return p; }
+    static void* operator new[](std::size_t, void* p) noexcept { return p; }
+    static void operator delete(void*, void*)   noexcept {}
+    static void operator delete[](void*, void*) noexcept {}
+private:
+    static void* aligned_allocate_(std::size_t n) {
+        constexpr std::size_t A = FASTOR_MEMORY_ALIGNMENT_VALUE;
+        void* raw = std::malloc(n + A + sizeof(void*));
+        if (raw == nullptr) throw std::bad_alloc();
+        std::uintptr_t u = reinterpret_cast<std::uintptr_t>(raw) + sizeof(void*);
+        u = (u + A - 1) / A * A;
+        reinterpret_cast<void**>(u)[-1] = raw;
+        return reinterpret_cast<void*>(u);
+    }
+    static void aligned_free_(void* p) noexcept {
+        if (p != nullptr) std::free(reinterpret_cast<void**>(p)[-1]);
+    }
+public:
+    //----------------------------------------------------------------------------------------------------------//
+#endif
 
     // Classic constructors
     //----------------------------------------------------------------------------------------------------------//
